@@ -16,10 +16,12 @@ package main
 // that no recover() can catch.
 
 import (
-	avrotime "github.com/philpearl/avro/time"
 	"bufio"
 	"encoding/binary"
 	"fmt"
+	avronull "github.com/philpearl/avro/null"
+	avrotime "github.com/philpearl/avro/time"
+	"github.com/unravelin/null/v5"
 	"os"
 	"os/exec"
 	"reflect"
@@ -463,10 +465,101 @@ func (userTimeCodec) Read(r *avro.ReadBuf, p unsafe.Pointer) error {
 	*(*time.Time)(p) = time.Unix(v, 0).UTC()
 	return nil
 }
-func (userTimeCodec) Skip(r *avro.ReadBuf) error            { _, err := r.Varint(); return err }
-func (userTimeCodec) New(r *avro.ReadBuf) unsafe.Pointer    { return r.Alloc(timeT) }
-func (userTimeCodec) Omit(p unsafe.Pointer) bool            { return false }
+func (userTimeCodec) Skip(r *avro.ReadBuf) error               { _, err := r.Varint(); return err }
+func (userTimeCodec) New(r *avro.ReadBuf) unsafe.Pointer       { return r.Alloc(timeT) }
+func (userTimeCodec) Omit(p unsafe.Pointer) bool               { return false }
 func (userTimeCodec) Write(w *avro.WriteBuf, p unsafe.Pointer) { w.Varint((*time.Time)(p).Unix()) }
+
+// countingTimeCodec / countingIntCodec: user codecs for time.Time and null.Int that count their writes
+type countingTimeCodec struct{ userTimeCodec }
+
+var userWrites int
+
+func (c countingTimeCodec) Write(w *avro.WriteBuf, p unsafe.Pointer) {
+	userWrites++
+	c.userTimeCodec.Write(w, p)
+}
+
+type countingNullIntCodec struct{}
+
+func (countingNullIntCodec) Read(r *avro.ReadBuf, p unsafe.Pointer) error {
+	v, err := r.Varint()
+	*(*null.Int)(p) = null.IntFrom(v)
+	return err
+}
+func (countingNullIntCodec) Skip(r *avro.ReadBuf) error         { _, err := r.Varint(); return err }
+func (countingNullIntCodec) New(r *avro.ReadBuf) unsafe.Pointer { return r.Alloc(nullIntT) }
+func (countingNullIntCodec) Omit(p unsafe.Pointer) bool         { return false }
+func (countingNullIntCodec) Write(w *avro.WriteBuf, p unsafe.Pointer) {
+	userWrites++
+	w.Varint((*null.Int)(p).Int64)
+}
+
+// c20Scenario: a user's registration for one library type must survive the (re-)registration of the codecs of
+// ANOTHER library package ("nothing else is affected", "the most recent registration wins")
+func c20Scenario(name string) sx {
+	userWrites = 0
+	type holder struct {
+		T time.Time `json:"t"`
+		N null.Int  `json:"n"`
+	}
+	fieldType := func(field string) string {
+		s, err := avro.SchemaForType(holder{})
+		if err != nil || s.Object == nil {
+			return "schema-error"
+		}
+		for _, f := range s.Object.Fields {
+			if f.Name == field {
+				return schemaSx(f.Type).String()
+			}
+		}
+		return "no-field"
+	}
+	encode := func() int {
+		userWrites = 0
+		s, err := avro.SchemaForType(holder{})
+		if err != nil {
+			return -1
+		}
+		c, err := s.Codec(holder{})
+		if err != nil {
+			return -1
+		}
+		h := holder{T: time.Unix(1700000000, 0).UTC(), N: null.IntFrom(7)}
+		w := avro.NewWriteBuf(nil)
+		c.Write(w, unsafe.Pointer(&h))
+		return userWrites
+	}
+	switch name {
+	case "user-time-then-null-package":
+		avro.RegisterSchema(timeT, sPrim("long"))
+		avro.Register(timeT, func(s avro.Schema, typ reflect.Type, omit bool) (avro.Codec, error) { return countingTimeCodec{}, nil })
+		before := fieldType("t")
+		avronull.RegisterCodecs()
+		if after := fieldType("t"); after != before {
+			return T("violated", hs("registering the null.* codecs changed the schema of time.Time from "+before+" to "+after))
+		}
+		if n := encode(); n != 1 {
+			return T("violated", hs(fmt.Sprintf("after registering the null.* codecs the user's time.Time codec wrote %d of 1 values", n)))
+		}
+	case "user-nullint-then-time-package":
+		avro.RegisterSchema(nullIntT, sPrim("long"))
+		avro.Register(nullIntT, func(s avro.Schema, typ reflect.Type, omit bool) (avro.Codec, error) {
+			return countingNullIntCodec{}, nil
+		})
+		before := fieldType("n")
+		avrotime.RegisterCodecs()
+		if after := fieldType("n"); after != before {
+			return T("violated", hs("registering the time codecs changed the schema of null.Int from "+before+" to "+after))
+		}
+		if n := encode(); n != 1 {
+			return T("violated", hs(fmt.Sprintf("after registering the time codecs the user's null.Int codec wrote %d of 1 values", n)))
+		}
+	default:
+		panic("harness: unknown c20x scenario " + name)
+	}
+	return T("ok")
+}
 
 func applyRegs(regs sx) {
 	for _, e := range regs.args() {
@@ -581,6 +674,13 @@ func execSgen(op string, a []sx) sx {
 		}
 		return res
 	}
+	if op == "c20x" {
+		// registration scenarios judged here (the types involved are the library's own, which the model treats as built in)
+		if os.Getenv("SGEN_CHILD") == "" {
+			return sgenInChild(op, a)
+		}
+		return c20Scenario(a[0].atom)
+	}
 	if op == "c20-known" {
 		a = a[1:]
 		op = "c20"
@@ -686,7 +786,7 @@ func sgenChild() {
 
 func sgID(t reflect.Type) int { return sgCustomID[t] }
 
-func sgUnionNullFirst(s avro.Schema) avro.Schema { return sUnion(sPrim("null"), s) }
+func sgUnionNullFirst(s avro.Schema) avro.Schema  { return sUnion(sPrim("null"), s) }
 func sUnionNullFirstOf(s avro.Schema) avro.Schema { return sgUnionNullFirst(s) }
 
 // the fixed registrations of the C15 generator
@@ -1161,6 +1261,8 @@ func genC20(c *ctx) {
 			c.emitC20(td, env, T("regs", T("usertime"), T("lib", A("time"))), c.sgValue(top, 3))
 		}
 	}
+	c.emit(T("c20x", A("user-time-then-null-package")))
+	c.emit(T("c20x", A("user-nullint-then-time-package")))
 	// two registered types side by side, and the same registered type twice, in random positions
 	n := c.scale(300, 3000)
 	for i := 0; i < n; i++ {
